@@ -165,7 +165,7 @@ def run_case(case):
             k = str(rng.choice(G.KINDS + ["nidq", "NP2.1-1030", "NP2.4-2013"]))
             try:
                 if k == "nidq":
-                    rec = G.make_nidq(rng, mn=int(rng.integers(0, 9)), ma=int(rng.integers(0, 3)), xa=int(rng.integers(1, 4)), dw=int(rng.integers(0, 2)),
+                    rec = G.make_nidq(rng, mn=int(rng.integers(0, 9)), ma=int(rng.integers(0, 3)), xa=int(rng.integers(1, 4)), dw=int(rng.integers(0, 2)), acq="random",
                                       mn_gain=float(rng.choice([1, 200, 500])), ma_gain=float(rng.choice([1, 2, 10])),
                                       aimax=float(rng.choice([5, 10, 2.5])), fs=float(rng.choice([30003.0003, 25000, 62500.0])),
                                       ns=int(rng.integers(1, 10 ** 7)), raw=np.zeros((1, 1), np.int16), tilde=bool(rng.integers(0, 2)))
@@ -192,6 +192,7 @@ def run_case(case):
                                  ns=int(rng.integers(1, 10 ** 8)), aimax=aimax, maxint=maxint,
                                  explicit_maxint=bool(rng.integers(0, 2)) if maxint == 512 else True, extra=extra,
                                  tilde=bool(rng.integers(0, 2)), raw=np.zeros((1, 1), np.int16),
+                                 port_slot=(int(rng.choice([0, 1, 2, 4])), int(rng.choice([0, 2, 3, 21]))),       # OneBox ports start at 0
                                  encoding="shank" if kind == "NPultra" or rng.random() < 0.5 else "geom")
                     exp_ver, exp_major, exp_type = kind, G.major(kind), stream
                     nontriv = (not np2 and np.any(gains[:n, 0] != gains[:n, 1])) or n < 384
